@@ -19,10 +19,12 @@ import (
 )
 
 type replayInput struct {
-	Base *Op    `json:"base"`
-	Decs []Dec  `json:"decs"`
-	Text string `json:"text"`
-	Vars string `json:"variables"`
+	Base    *Op      `json:"base"`
+	Decs    []Dec    `json:"decs"`
+	Text    string   `json:"text"`
+	Vars    string   `json:"variables"`
+	Hist    []int    `json:"history,omitempty"` // third seam: indices into histPool
+	MultiOp *mopCase `json:"multiop,omitempty"` // document with two operations
 }
 
 type tierBounds struct {
@@ -43,6 +45,7 @@ func TestCheck(t *testing.T) {
 		"the same literal at two argument positions of similar types ([T] vs [T!], [[T]] vs [[T]!], [T]! vs [T!]!, T vs T!, [T] vs [T]!, T vs [T], Int vs Float, String vs ID, [In] vs [In!]) in both orders, " +
 		"2 and 3 directives from {@skip/@include literal true/false, through variables with both values, custom @tag} in every order on every field (directly, on a fragment spread, on an inline fragment) of the bases with <=2 selections and on the type-conditioned inline fragments of the bases with 3 selections, each without / with a first-in-document directive that removes / keeps a sibling (single decoration only), " +
 		"a field next to a copy of itself where one of the two is self-aliased (directly, through an inline / named fragment, with split selection), " +
+		"negative int / float literals (argument, list, nested list, input object, Float position, directive argument) written in the operation / in an inline fragment / in a named fragment / in a nested named fragment, " +
 		"__typename, @skip/@include literal/variable/defaulted variable with both values, argument value menus incl. null, list coercion, nested input objects, " +
 		"written as literal / variable / variable named like a generated one / defaulted variable / defaulted variable overridden by a value or by null / literal mixing variables, " +
 		"omitted optional argument, unused variable, variable renaming, operation name) at every applicable site, all combinations of <=1 (quick) / <=2 (thorough, smaller bases) decorations; " +
@@ -53,6 +56,8 @@ func TestCheck(t *testing.T) {
 		"the response key __internal__typename_placeholder (added by the normalizer for emptied selection sets, documented as ignored by the planner) is removed before responses are compared",
 		"normalized variables = request variables after normalization with their keys renamed by the mapping the variables mapper returns (what the resolver sees through RemapVariables)",
 		"second seam (cases with <=1 decoration): ONE graphql.Request.Normalize call with the package's default options must be idempotent too (the engine's sequence runs the walkers twice and would hide what a single pass leaves undone)",
+		"third seam: all ordered pairs of a pool of 18 operations on ONE re-used astnormalization.OperationNormalizer; the result for the second operation must equal that of a fresh normalizer (only the first failing predecessor per last operation is reported)",
+		"documents with two operations that declare the same variable with different defaults (used in @skip/@include, inside list / object literals, as argument), both document orders, each operation executed by name with no / empty variables: same result as the one-operation document, same reference response",
 		"canonical classes: root = base + every decoration the property sentence does not list; members add in-place fragment structure, in-set duplicates, variable renaming, literal<->variable; the operation name is held fixed; one of several equal literals turned into a variable is not a member (documented contract of the variables mapper)",
 	)
 	var b tierBounds
@@ -83,6 +88,30 @@ func TestCheck(t *testing.T) {
 		var in replayInput
 		if err := run.ReplayInput(&in); err != nil {
 			t.Fatal(err)
+		}
+		if in.MultiOp != nil {
+			for i := 0; i < 3; i++ {
+				fs, detail := c.evalMultiOp(*in.MultiOp)
+				fmt.Printf("replay %d: %s\n", i, detail)
+				for _, f := range fs {
+					fmt.Printf("  FAILED %s [%s]\n    %s\n", f.Clause, f.Kind, f.Detail)
+					run.Violate(vk.Violation{Clause: f.Clause, Site: f.Kind, Class: mopTmpls[in.MultiOp.selected().T].Class + "; the other operation declares the same variable with another default", Detail: detail, Input: in})
+				}
+			}
+			run.Eval(3)
+			return
+		}
+		if len(in.Hist) > 0 {
+			for i := 0; i < 3; i++ {
+				f, fresh, reused := evalHistory(in.Hist)
+				fmt.Printf("replay %d: history %v\n  fresh   %v\n  re-used %v\n", i, in.Hist, fresh, reused)
+				if f != nil {
+					fmt.Printf("  FAILED %s [%s]\n", f.Clause, f.Kind)
+					run.Violate(vk.Violation{Clause: f.Clause, Site: f.Kind, Class: "last operation: " + histPool[in.Hist[len(in.Hist)-1]].Class, Detail: f.Detail, Input: in})
+				}
+			}
+			run.Eval(3)
+			return
 		}
 		c.singlePass = len(in.Decs) <= 1
 		for i := 0; i < 3; i++ {
@@ -334,6 +363,11 @@ func TestCheck(t *testing.T) {
 		}
 		flushClasses("pairs_")
 	}
+
+	// third seam: histories on one re-used normalizer
+	runHistories(run)
+	// documents with two operations, each executed by name
+	runMultiOp(run, c)
 
 	// pass A: <=1 decoration on every base below the size bound
 	// pass B (thorough): <=2 decorations on the small bases
